@@ -18,12 +18,12 @@ type IterCheck struct {
 	Mode  string    // fresh-map | fresh-slice | in-place
 	Sinks []ssa.Instruction
 	// results
-	MultiStore []string // descriptions of paths with >= 2 stores
-	ZeroPaths  []zeroPath
+	MultiStore  []string // descriptions of paths with >= 2 stores
+	ZeroPaths   []zeroPath
 	KeyProblems []string
-	LenOK      bool
-	Whole      bool
-	EarlyExits int
+	LenOK       bool
+	Whole       bool
+	EarlyExits  int
 }
 
 type zeroPath struct {
